@@ -551,4 +551,12 @@ def Machine.neverFailsOnBytes (M : Machine) (o : SemOpts) : Bool :=
         | .ret code _ _ => code != "FAIL"
         | _ => true
 
+/-- `start()` leaves a state of the table, whichever way its start-up actions go -/
+def RtCtx.startClosed (c : RtCtx) : Bool :=
+  c.startTree.paths.all fun p =>
+    match p.2 with
+    | .next st _ => c.M.inTable st
+    | .ret _ st _ => c.M.inTable st
+    | .yielded _ st _ => c.M.inTable st
+
 end Nmfu
